@@ -1,8 +1,9 @@
 SPECIFICATION Spec
-CONSTANT Names = {"x"}
-CONSTANT NameSeq <- Seq1
+CONSTANT Names = {"x", "__class__"}
+CONSTANT NameSeq <- Seq1C
 CONSTANT FShapes <- Chain4
 CONSTANT FFlags <- F7
+CONSTANT Mode = "cls"
 CONSTANT FModFlags <- FModQ
 CONSTANT MaxScopes = 4
 CONSTANT MaxDepth = 3
